@@ -31,8 +31,8 @@ import fpops  # noqa: E402
 REPO = os.environ.get('VERIF_REPO', '/repo')
 GOENV = dict(os.environ, GOFLAGS='-mod=mod', GOPROXY='off', GOSUMDB='off', GOTOOLCHAIN='local')
 
-ALLOW = 'github.com/reactivego/ivg/...,vph/...,image/color,image,strings,bytes,internal/stringslite,internal/bytealg,io,errors,golang.org/x/image/math/f32'
-INITS = 'github.com/reactivego/ivg/...,vph/...,image/color,errors,io'
+ALLOW = 'github.com/reactivego/ivg/...,vph/...,image/color,image,strings,bytes,internal/stringslite,internal/bytealg,io,errors,encoding/binary,encoding/hex,math/bits,unicode/utf8,golang.org/x/image/math/f32'
+INITS = 'github.com/reactivego/ivg/...,vph/...,image/color,errors,io,encoding/binary,encoding/hex'
 
 DEFAULT_MERGE = [
     'github.com/reactivego/ivg.Is1', 'github.com/reactivego/ivg.Is1$1', 'github.com/reactivego/ivg.Is2',
